@@ -212,9 +212,12 @@ theorem store_ok_iff (name : String) (v : V) : ∀ (segs : List String) (outputs
         cases w with
         | atom t i => cases rest <;> simp
         | dict fr sub =>
-          simp only
-          rw [← store_ok_iff name v rest sub]
-          cases store sub rest name v <;> simp
+          cases fr with
+          | true => cases rest <;> simp
+          | false =>
+            simp only
+            rw [← store_ok_iff name v rest sub]
+            cases store sub rest name v <;> simp
 
 theorem getPath_none : ∀ (q : List String), getPath none q = none
   | [] => rfl
@@ -246,11 +249,14 @@ theorem store_getPath_self (name : String) (v : V) : ∀ (segs : List String) (o
         cases w with
         | atom t i => cases rest <;> simp at h
         | dict fr sub =>
+          cases fr with
+          | true => cases rest <;> simp at h
+          | false =>
           cases hs : store sub rest name v with
           | error e => simp [hs] at h
           | ok sub' =>
             simp only [hs, Except.ok.injEq] at h; subst h
-            rw [lookup_setKey_self]; exact store_getPath_self name v rest sub sub' fr hs
+            rw [lookup_setKey_self]; exact store_getPath_self name v rest sub sub' false hs
 
 /-- a successful `store` changes nothing at any path that is neither above nor below the place it writes -/
 theorem store_getPath_other (name : String) (v : V) : ∀ (segs : List String) (outputs o : Items) (f : Bool) (q : List String),
@@ -284,11 +290,14 @@ theorem store_getPath_other (name : String) (v : V) : ∀ (segs : List String) (
           cases w with
           | atom t i => cases rest <;> simp at h
           | dict fr sub =>
+            cases fr with
+            | true => cases rest <;> simp at h
+            | false =>
             cases hs : store sub rest name v with
             | error e => simp [hs] at h
             | ok sub' =>
               simp only [hs, Except.ok.injEq] at h; subst h
-              rw [lookup_setKey_self]; exact store_getPath_other name v rest sub sub' fr q' hs h1' h2'
+              rw [lookup_setKey_self]; exact store_getPath_other name v rest sub sub' false q' hs h1' h2'
       · have : lookup k o = lookup k outputs := by
           cases hl : lookup s outputs with
           | none =>
@@ -301,6 +310,9 @@ theorem store_getPath_other (name : String) (v : V) : ∀ (segs : List String) (
             cases w with
             | atom t i => cases rest <;> simp at h
             | dict fr sub =>
+              cases fr with
+              | true => cases rest <;> simp at h
+              | false =>
               cases hs : store sub rest name v with
               | error e => simp [hs] at h
               | ok sub' => simp only [hs, Except.ok.injEq] at h; subst h; exact lookup_setKey_ne hk _ _
@@ -341,9 +353,74 @@ theorem store_error_class (name : String) (v : V) : ∀ (segs : List String) (ou
         cases w with
         | atom t i => cases rest <;> simp at h <;> simp [← h]
         | dict fr sub =>
+          cases fr with
+          | true => cases rest <;> simp at h <;> simp [← h]
+          | false =>
           cases hs : store sub rest name v with
           | ok sub' => simp [hs] at h
           | error e' => simp only [hs, Except.error.injEq] at h; subst h; exact store_error_class name v rest sub e' hs
+
+/-- why `store` fails, exactly: walking the namespace part of the path it meets, at a non-empty prefix `q`, a value `w` that
+is not a plain dict (an atom or an immutable mapping); `TypeError` when `w` sits exactly where the entry is to be assigned
+(`w[name] = value`), `AttributeError` when path segments remain below it (`w.setdefault(...)`) -/
+theorem store_error_exact (name : String) (v : V) : ∀ (segs : List String) (outputs : Items) (e : Err),
+    store outputs segs name v = .error e →
+    ∃ q w rest, segs = q ++ rest ∧ q ≠ [] ∧ getPath (some (.dict false outputs)) q = some w ∧ w.isDict = false ∧
+      e = (if rest = [] then .typeError else .attributeError)
+  | [], outputs, e, h => by simp [store] at h
+  | s :: rest, outputs, e, h => by
+      simp only [store] at h
+      cases hl : lookup s outputs with
+      | none =>
+        rw [hl] at h
+        cases hs : store [] rest name v with
+        | ok sub => simp [hs] at h
+        | error e' =>
+          obtain ⟨q, w, r, _, hq, hg, _⟩ := store_error_exact name v rest [] e' hs
+          rw [getPath_empty false q hq] at hg; cases hg
+      | some w =>
+        rw [hl] at h
+        have here : ∀ e', (match rest with | [] => Except.error Err.typeError | _ :: _ => Except.error Err.attributeError : Except Err Items) = .error e' →
+            w.isDict = false → ∃ q w' r, s :: rest = q ++ r ∧ q ≠ [] ∧ getPath (some (.dict false outputs)) q = some w' ∧ w'.isDict = false ∧
+              e' = (if r = [] then .typeError else .attributeError) := by
+          intro e' he hw
+          refine ⟨[s], w, rest, rfl, by simp, by simp [getPath, hl], hw, ?_⟩
+          cases rest <;> simp at he <;> simp [← he]
+        cases w with
+        | atom t i => exact here e h rfl
+        | dict fr sub =>
+          cases fr with
+          | true => exact here e h rfl
+          | false =>
+            cases hs : store sub rest name v with
+            | ok sub' => simp [hs] at h
+            | error e' =>
+              simp only [hs, Except.error.injEq] at h; subst h
+              obtain ⟨q, w, r, h1, _, h3, h4, h5⟩ := store_error_exact name v rest sub e' hs
+              exact ⟨s :: q, w, r, by rw [h1]; rfl, by simp, by simpa [getPath, hl] using h3, h4, h5⟩
+
+/-- a value that is not a plain dict, found on the way (at a prefix of the namespace part of the path), makes `store` fail -/
+theorem store_blocked (name : String) (v : V) : ∀ (segs : List String) (outputs : Items) (q : List String) (w : V),
+    q <+: segs → getPath (some (.dict false outputs)) q = some w → w.isDict = false → ∃ e, store outputs segs name v = .error e
+  | segs, outputs, [], w, _, hg, hw => by simp only [getPath, Option.some.injEq] at hg; subst hg; simp [V.isDict] at hw
+  | [], outputs, k :: q', w, hp, _, _ => by simp at hp
+  | s :: rest, outputs, k :: q', w, hp, hg, hw => by
+      have hks : k = s ∧ q' <+: rest := by simpa using hp
+      obtain ⟨rfl, hp'⟩ := hks
+      simp only [getPath] at hg
+      simp only [store]
+      cases hl : lookup k outputs with
+      | none => rw [hl, getPath_none] at hg; cases hg
+      | some u =>
+        rw [hl] at hg
+        cases u with
+        | atom t i => cases rest <;> simp
+        | dict fr sub =>
+          cases fr with
+          | true => cases rest <;> simp
+          | false =>
+            obtain ⟨e, he⟩ := store_blocked name v rest sub q' w hp' hg hw
+            simp [he]
 
 /-- complete description of one `out` call -/
 theorem out_master (vd : Nat → V → Bool) (st : OutSt) (hwf : wfPorts st.ports = true) (path : List String) (v : V) :
@@ -356,7 +433,8 @@ theorem out_master (vd : Nat → V → Bool) (st : OutSt) (hwf : wfPorts st.port
      | .error e => (out vd st path v).1.outputs = st.outputs ∧ (out vd st path v).1.emitted = st.emitted ∧
           ∀ b qs, resolveRef st.top st.ports path.dropLast = some (b, qs) →
             (¬ LastOk vd b qs (path.getLastD "") v ∧ ∃ p, e = .validation p) ∨
-            (LastOk vd b qs (path.getLastD "") v ∧ ¬ Storable st.outputs path.dropLast ∧ (e = .typeError ∨ e = .attributeError))) := by
+            (LastOk vd b qs (path.getLastD "") v ∧ ¬ Storable st.outputs path.dropLast ∧ (e = .typeError ∨ e = .attributeError) ∧
+              store st.outputs path.dropLast (path.getLastD "") v = .error e)) := by
   obtain ⟨hw1, hres⟩ := resolveNs_spec st hwf path.dropLast
   unfold out
   simp only
@@ -398,7 +476,7 @@ theorem out_master (vd : Nat → V → Bool) (st : OutSt) (hwf : wfPorts st.port
           refine ⟨hw1, rfl, rfl, rfl, ?_⟩
           intro b qs hq'; rw [hq] at hq'; cases hq'
           right
-          refine ⟨hlast, fun hst => ?_, store_error_class _ _ _ _ _ hs⟩
+          refine ⟨hlast, fun hst => ?_, store_error_class _ _ _ _ _ hs, rfl⟩
           obtain ⟨o, ho⟩ := (store_ok_iff (path.getLastD "") v path.dropLast st.outputs).2 hst
           rw [hs] at ho; cases ho
         | ok o =>
